@@ -5,9 +5,10 @@ V = os.path.dirname(os.path.dirname(os.path.abspath(__file__)))
 props = [json.loads(l)["id"] for l in open(os.path.join(V, "properties.jsonl"))]
 pending = json.load(open(os.path.join(V, "tools", "not_applicable.json")))
 checks, na, served = [], [], []
+integrated = set(open(os.path.join(V, "tools", "integrated.txt")).read().split())
 for pid in props:
     sp = os.path.join(V, "harness", pid.lower(), "spec.json")
-    if os.path.exists(sp) and json.load(open(sp)).get("registered", False):
+    if os.path.exists(sp) and json.load(open(sp)).get("registered", False) and pid in integrated:
         s = json.load(open(sp))
         served.append(pid)
         checks.append({
@@ -22,7 +23,7 @@ for pid in props:
             "technique": s["technique"],
         })
     else:
-        na.append({"property_id": pid, "reason": pending.get(pid, "check not built yet in this session; see DESIGN.md section 5 for the planned monitor")})
+        na.append({"property_id": pid, "reason": pending.get(pid, "harness under construction: its fixes are not yet integrated into /repo; see DESIGN.md section 5 for the monitor")})
 m = {
     "version": 1,
     "setup_cmd": "./check setup",
